@@ -199,6 +199,12 @@ def _lemma_bins_disjoint(up):
     return build
 
 
+def _encp_unique(a, r):
+    """whichever cyclic bin holds the reduced target is the one returned (bins are disjoint)"""
+    n = ln(a.xp)
+    return forall(0, ln(a.x), lambda j: forall(0, n, lambda k: implies(in_cyclic_bin(a.xp, a.x[j], k, a.period), r[0, j] == k), "k"), "j")
+
+
 def _pgrid(rng, n, descending=False):
     """grid on multiples of 1/4 inside one period (float arithmetic on it is exact)"""
     import numpy as np
@@ -235,12 +241,14 @@ enclosing_periodic = Contract(
     ensures=[("shape", lambda a, r: And(r.shape[0] == 2, r.shape[1] == ln(a.x))),
              ("in_range", _enc_range),
              ("cyclic_successor_never_clipped", _encp_cyclic),
-             ("cyclic_bracket", _encp_bracket)],
+             ("cyclic_bracket", _encp_bracket),
+             ("cyclic_bracket_unique", _encp_unique)],
     witness=[lambda: ("", {"xp": __import__("numpy").array([10.0, 100.0, 190.0, 280.0]), "regular_xp": False, "period": 360,
                            "x": __import__("numpy").array([10.0, 0.0, 359.0, 370.0, -350.0, 730.0, 280.0, 300.0, -60.0, 1000.0, -1000.0])}),
              lambda: ("", {"xp": __import__("numpy").array([280.0, 190.0, 100.0, 10.0]), "regular_xp": False, "period": 360,
                            "x": __import__("numpy").array([10.0, 0.0, 359.0, 370.0, -350.0, 730.0, 280.0, 300.0, -60.0, 1000.0, -1000.0])})],
-    options={"samples": _encp_samples, "finite_reals": True},
+    options={"samples": _encp_samples, "finite_reals": True,
+             "result": lambda mk, a: mk.array("indices", (2, mk.st.deref(a.x).shape[0]), "int")},
 )
 
 
@@ -456,6 +464,92 @@ interpolate_periodic = Contract(
     options={"samples": _ip_samples, "finite_reals": True},
 )
 
+
+# ------------------------------------------------------------------ NdInterpolator.interpolate along a periodic coordinate ("direction")
+import contracts.C13 as C13
+weights_periodic.options["result"] = lambda mk, a: mk.array("weights", (2, mk.st.deref(a.x).shape[0]), "xreal")
+
+
+def _p_ndp(layout, nearest):
+    base = C13._p_nd(layout, nearest)
+
+    def p(mk):
+        d = base(mk)
+        d["coordinate_name"] = "direction"
+        return d
+    return p
+
+
+def _ndp_value(a, r, qs=None):
+    """every target, however many periods away, is interpolated between the two cyclic neighbours of its bin
+    (the last bin spans the wrap) with the NaN rule of C13; nothing is out of range"""
+    n = ln(a.xp)
+    P = P360
+    qs = C13._passive_range(a.layout) if qs is None else qs
+
+    def one(j, k, q):
+        nxt = If(k == n - 1, 0, k + 1)
+        res = C13._cell(r, a.layout, j, q)
+
+        def rule(tt):
+            miss, val = C13.renormalised(C13._cell(a.y, a.layout, k, q), C13._cell(a.y, a.layout, nxt, q),
+                                         C13._slice_valid(a.y, a.layout, k), C13._slice_valid(a.y, a.layout, nxt), tt)
+            return And(iff(isnan(res), miss), implies(Not(miss), eq(valof(res), val, rtol=1e-9, atol=1e-7)))
+
+        def body(up):
+            t = arc_fraction(a.xp, a.x[j], k, P, up)
+            if a.nearest:
+                return And(implies(lt(t, Fraction(1, 2)), rule(0)), implies(gt(t, Fraction(1, 2)), rule(1)),
+                           implies(eq(t, Fraction(1, 2), rtol=0, atol=0), Or(rule(0), rule(1))))
+            return rule(t)
+        return implies(in_cyclic_bin(a.xp, a.x[j], k, P), both_directions(a.xp, body))
+    return forall(0, ln(a.x), lambda j: forall(0, n, lambda k: And(*[one(j, k, q) for q in qs]), "k"), "j")
+
+
+def _ndp_never_missing_for_complete_data(a, r):
+    """no target is out of range: with no missing data every result is present"""
+    n = ln(a.xp)
+    complete = forall(0, n, lambda k: C13._slice_valid(a.y, a.layout, k), "k")
+    return implies(complete, forall(0, ln(a.x), lambda j: And(*[notnan(C13._cell(r, a.layout, j, q)) for q in C13._passive_range(a.layout)]), "j"))
+
+
+def _ndp_samples(nearest):
+    def f(rng, tier):
+        import numpy as np
+        out = []
+        for _ in range(30 if tier == "quick" else 300):
+            lay = list(C13.LAYOUTS)[int(rng.integers(0, 3))]
+            xp = _pgrid_small_gaps(rng, bool(rng.integers(0, 2)))
+            x = _ptargets(rng, xp, int(rng.integers(0, 10)))
+            shape = tuple(len(xp) if d == "t" else C13.NPASSIVE for d in C13.LAYOUTS[lay])
+            y = np.round(rng.normal(size=shape) * 10, 2)
+            y[rng.random(shape) < 0.1] = np.nan
+            out.append((lay, {"xp": xp, "x": x, "y": y, "layout": lay, "nearest": nearest, "coordinate_name": "direction"}))
+        return out
+    return f
+
+
+def _ndp_contract(nearest):
+    mode = "nearest" if nearest else "linear"
+    fixed = {"period": P360, "extrapolate_left": False, "extrapolate_right": False, "nearest_neighbour": nearest}
+    return Contract(
+        C13.ND + "interpolate", label=f"NdInterpolator.interpolate.periodic_coordinate.{mode}",
+        instances=[(lay, _p_ndp(lay, nearest)) for lay in C13.LAYOUTS],
+        requires=PGRID_REQ_XP + [("bins_shorter_than_half_period", lambda a: _gaps_below_half_period(NS({"xp": a.xp, "period": P360})))],
+        ensures=[("shape", C13._nd_shape),
+                 ("value_between_cyclic_neighbours", lambda a, r: _ndp_value(a, r, [0])),
+                 ("value_between_cyclic_neighbours.passive1", lambda a, r: _ndp_value(a, r, [1]), {"rank2,axis0", "rank2,axis1"}),
+                 ("no_target_out_of_range", _ndp_never_missing_for_complete_data)],
+        call=C13._nd_call,
+        callees={enclosing_periodic.target: C13.callee_of(enclosing_periodic, "", {"period": P360, "regular_xp": False}),
+                 weights_periodic.target: C13.callee_of(weights_periodic, mode, fixed),
+                 C13.data_interpolator.target: C13.data_interpolator_callee()},
+        options={"samples": _ndp_samples(nearest), "finite_reals": True, "native_call": C13._nd_native})
+
+
+PGRID_REQ_XP = GRID_REQ + [("within_one_period", lambda a: lt(span(a.xp), P360))]
+ndp_linear, ndp_nearest = _ndp_contract(False), _ndp_contract(True)
+
 LEMMAS = []
 for _up in (True, False):
     _d = "ascending" if _up else "descending"
@@ -464,7 +558,7 @@ for _up in (True, False):
                Lemma(f"cyclic_bins_disjoint[{_d}]", _lemma_bins_disjoint(_up),
                      "... and a reduced offset determines its bin; with post.cyclic_bracket / cyclic_successor_never_clipped (and the periodic "
                      "weights' post.fraction) such targets therefore get identical indices and weights")]
-CONTRACTS = [wrapped_difference, enclosing_periodic, weights_periodic, interpolate_periodic]
+CONTRACTS = [wrapped_difference, enclosing_periodic, weights_periodic, interpolate_periodic, ndp_linear, ndp_nearest]
 TRUSTED = ["infinite values are outside the model: every non-NaN float of these contracts is finite (contract option finite_reals)",
            "possibly-NaN floats are pairs (real, flag) with IEEE propagation through + - * / % and comparisons (pyvc.terms.XR)",
            "boolean-mask selection/assignment x[m] = f(y[m]) acts cell by cell on the cells where m holds (masks proved identical)"]
